@@ -108,6 +108,7 @@ inductive StmtErr where
   | statementString   -- BatchStatementSerializationError::StatementStringSerialization
   | statementId       -- ::StatementIdSerialization
   | tooManyValues     -- ::TooManyValues
+  | values            -- ::ValuesSerialiation (a typed row refused by its `RowSerializationContext`, or a cell overflow)
   deriving Repr, DecidableEq
 
 inductive Err where
@@ -245,6 +246,60 @@ def encodeBatch (ty : BatchType) (stmts : List BatchStmt) (vals : List SerVals) 
         ++ [UInt8.ofNat (batchFlags sc.isSome ts.isSome)]
         ++ optBytes (fun c => be16 (serialConsistencyCode c)) sc ++ optBytes i64be ts)
 
+/-! #### BATCH through `RawBatchValuesAdapter` (`serialize/raw_batch.rs:112-166`), the path of `Connection::batch_with_consistency`
+
+The values are typed rows (`BatchValues`), serialized inside the statement loop against the statement's
+`RowSerializationContext` (here: its number of columns; the harness uses blob columns and `Vec` rows, whose
+`SerializeRow` refuses a row whose length differs from the column count — `row.rs:140-157`).  The contexts come from the
+statements, one per statement, so a context is consumed in step with its statement. -/
+
+/-- The cells of one typed row (`serialize_column` per value); `none` = some value overflows (`SizeOverflow`). -/
+def rowCells : List RawVal → Option Bytes
+  | [] => some []
+  | v :: vs =>
+    match encodeCell v with
+    | none => none
+    | some c =>
+      match rowCells vs with
+      | none => none
+      | some r => some (c ++ r)
+
+/-- `Batch::do_serialize`'s loop with `RawBatchValuesIteratorAdapter`: per statement (with `cols` context columns)
+`serialize_next` = `None` → mismatch; row refused (`WrongColumnCount` / overflow) → `ValuesSerialiation`; more than
+65535 values written → `TooManyValues`; after the loop `skip_next().is_some()` → mismatch counting all value lists. -/
+def batchLoopA (n : Nat) : Nat → List (BatchStmt × Nat) → List (List RawVal) → Except Err Bytes
+  | idx, [], vals =>
+    if vals.isEmpty then .ok [] else .error (.batchMismatch (idx + vals.length) idx)
+  | idx, (s, cols) :: ss, vals =>
+    match encodeBatchStmt s with
+    | .error e => .error (.batchStmt idx e)
+    | .ok sb =>
+      match vals with
+      | [] => .error (.batchMismatch idx n)
+      | v :: vs =>
+        if cols ≠ v.length then .error (.batchStmt idx .values)
+        else
+          match rowCells v with
+          | none => .error (.batchStmt idx .values)
+          | some cells =>
+            if v.length > 65535 then .error (.batchStmt idx .tooManyValues)
+            else
+              match batchLoopA n (idx + 1) ss vs with
+              | .error e => .error e
+              | .ok rest => .ok (sb ++ be16 v.length ++ cells ++ rest)
+
+/-- `Batch::do_serialize` with adapter values. -/
+def encodeBatchA (ty : BatchType) (stmts : List (BatchStmt × Nat)) (vals : List (List RawVal)) (c : Consistency)
+    (sc : Option SerialConsistency) (ts : Option Int64) : Except Err Bytes :=
+  if stmts.length > 65535 then .error .batchTooManyStatements
+  else
+    match batchLoopA stmts.length 0 stmts vals with
+    | .error e => .error e
+    | .ok body =>
+      .ok ([UInt8.ofNat (batchTypeCode ty)] ++ be16 stmts.length ++ body ++ be16 (consistencyCode c)
+        ++ [UInt8.ofNat (batchFlags sc.isSome ts.isSome)]
+        ++ optBytes (fun c => be16 (serialConsistencyCode c)) sc ++ optBytes i64be ts)
+
 /-- All `SerializedValues` of a batch, built in order before the `Batch` exists. -/
 def mkSerValsList : List (List RawVal) → Except Err (List SerVals)
   | [] => .ok []
@@ -362,6 +417,21 @@ def encodeReq (k : Codec) (r : Req) (comp : Option Compression) (tracing : Bool)
     match payload with
     | .error e => .error e
     | .ok pl => .ok (header (frameFlags comp.isSome tracing) (opcode r) pl.length ++ pl)
+
+/-- `SerializedRequest::make` for an already computed body result (`encodeReq k r = encodeFrameOf k (encodeBody r) (opcode r)`,
+see `Props.C09.encodeReq_eq`); used for the adapter-built BATCH, which is not a `Req`. -/
+def encodeFrameOf (k : Codec) (body : Except Err Bytes) (op : Nat) (comp : Option Compression) (tracing : Bool) :
+    Except Err Bytes :=
+  match body with
+  | .error e => .error e
+  | .ok body =>
+    let payload : Except Err Bytes :=
+      match comp with
+      | some c => compressAppend k c body
+      | none => .ok body
+    match payload with
+    | .error e => .error e
+    | .ok pl => .ok (header (frameFlags comp.isSome tracing) op pl.length ++ pl)
 
 /-- `set_stream`. -/
 def setStream (f : Bytes) (stream : Int16) : Bytes :=
